@@ -520,8 +520,17 @@ def rule_empty(model):
             r.finding(fi.where, 'empty-sequence handler', 'an empty '
                       'sequence does not render exactly the else body (or '
                       'nothing)', node=probe, ctx=fi)
-        # no push before the probe
+        # no push before the probe, and no way out before it: whether the
+        # else body is rendered depends on the sequence alone
         idx = fi.node.body.index(probe)
+        for st in fi.node.body[:idx]:
+            for c in ast.walk(st):
+                if isinstance(c, ast.Return):
+                    r.instance(fi.where, c, 'EXIT BEFORE THE PROBE')
+                    r.finding(fi.where, c, 'the renderer can return before '
+                              'the emptiness probe: for an empty sequence '
+                              'the else body is then not rendered (the two '
+                              'renderers disagree)', node=c, ctx=fi)
         for st in fi.node.body[:idx]:
             for c in ast.walk(st):
                 if isinstance(c, ast.Call) and 'push' in norm(c.func):
